@@ -735,14 +735,61 @@ def stream_tokens(ctx):
         compare_text(ctx, 'tokens', st, text, resp, [kind], nontrivial=len(text) >= 2, modelled=m)
 
 
+def shrink(text, budget=600):
+    """Delta debugging on the characters of a failing text: a shorter text on which some oracle still fails on the implementation."""
+    def fails(t):
+        return t.count('\\') <= MAX_BACKSLASHES and bool(impl_oracles(t))
+    cur = text
+    n = 2
+    while len(cur) >= 2 and budget > 0:
+        chunk = max(1, len(cur) // n)
+        for i in range(0, len(cur), chunk):
+            cand = cur[:i] + cur[i + chunk:]
+            budget -= 1
+            if fails(cand):
+                cur = cand
+                n = max(n - 1, 2)
+                break
+            if budget <= 0:
+                break
+        else:
+            if chunk == 1:
+                break
+            n = min(n * 2, len(cur))
+    return cur
+
+
+def shrink_witnesses(ctx):
+    """Put a minimised witness first (the replay file shows the first one)."""
+    if not ctx.witnesses:
+        return
+    best = None
+    for w in sorted(ctx.witnesses, key=lambda w: len(w['input']))[:3]:
+        text = shrink(w['input'])
+        bad = impl_oracles(text)
+        if bad and (best is None or len(text) < len(best[0])):
+            best = (text, bad[0], w['input'])
+    if best is not None:
+        text, (oracle, want, got), origin = best
+        ctx.witnesses.insert(0, {'oracle': oracle, 'input': text, 'expected': want, 'actual': got, 'shrunk_from': origin})
+
+
 def streams(ctx):
     stream_chain(ctx)
     stream_chaintext(ctx)
     stream_expr(ctx)
     stream_tokens(ctx)
+    shrink_witnesses(ctx)
 
 
 def search(ctx):
+    try:
+        _search(ctx)
+    finally:
+        shrink_witnesses(ctx)
+
+
+def _search(ctx):
     """Directed search on the implementation alone: every ordered operator triple (a changed table entry or a changed spine
     walk shows up there), the corpus, deep nesting, and a larger budget of generated / mutated texts through all oracles."""
     for a, b, c in itertools.product(OPS, repeat=3):
